@@ -171,6 +171,8 @@ impl Check for C16 {
         splits.sort_unstable();
         splits.dedup();
         json!({"net": net, "stream": hex(&s), "truncate_at": truncate_at, "trailing": trailing, "splits": splits, "one_byte_segments": g.chance(10), "gap_us": *g.pick(&[0u64, 1, 1_000, 50_000]),
+            // one long silence of the application after a seeded segment (fragmentation in time)
+            "long_pause": if g.chance(15) { json!([g.next() % 1_000_000, *g.pick(&[6_000u64, 20_000])]) } else { Value::Null },
             "resolvable": g.chance(85), "names": names, "target": *g.pick(&["accept", "accept", "accept", "refuse", "blackhole"]), "sibling": g.chance(50)})
     }
     fn horizon(&self, _p: &Value) -> Duration {
@@ -250,10 +252,11 @@ impl Check for C16 {
             let mut cuts: Vec<usize> = if plan["one_byte_segments"].as_bool().unwrap_or(false) { (1..to_send.len()).collect() } else { plan["splits"].as_array().into_iter().flatten().filter_map(|x| x.as_u64()).map(|x| x as usize).filter(|x| *x < to_send.len()).collect() };
             cuts.push(to_send.len());
             let gap = plan["gap_us"].as_u64().unwrap_or(0);
+            let long_pause: Option<(usize, u64)> = plan["long_pause"].as_array().and_then(|a| Some(((a[0].as_u64()? as usize * cuts.len()) / 1_000_000, a[1].as_u64()?)));
             let (mut ar, mut aw) = app_split(app);
             let writer = anytls_simnet::spawn(async move {
                 let mut pos = 0usize;
-                for c in cuts {
+                for (ci, c) in cuts.into_iter().enumerate() {
                     if c > pos {
                         if aw.write_all(&to_send[pos..c]).await.is_err() {
                             break;
@@ -261,6 +264,12 @@ impl Check for C16 {
                         pos = c;
                         if gap > 0 {
                             sleep(Duration::from_micros(gap)).await;
+                        }
+                    }
+                    if let Some((at, ms)) = long_pause {
+                        if at == ci {
+                            world::fault_fired("application.long_silence_mid_request");
+                            sleep(Duration::from_millis(ms)).await;
                         }
                     }
                 }
@@ -277,7 +286,7 @@ impl Check for C16 {
             let mut b = [0u8; 256];
             loop {
                 // the slowest legitimate answer is the server's 15 s connect timeout (black-holed target)
-                let lim = if got.len() >= 12 { Duration::from_secs(3) } else { Duration::from_secs(40) };
+                let lim = (if got.len() >= 12 { Duration::from_secs(3) } else { Duration::from_secs(40) }) + Duration::from_millis(long_pause.map(|p| p.1).unwrap_or(0));
                 match timeout(lim, ar.read(&mut b)).await {
                     Ok(Ok(0)) | Ok(Err(_)) => {
                         closed = true;
